@@ -12,6 +12,7 @@ import (
 	"sort"
 	"strings"
 	"sync"
+	"sync/atomic"
 	"time"
 
 	"golang.org/x/tools/go/ssa"
@@ -32,6 +33,12 @@ type Solver struct {
 	Args func(file string, timeoutS int) []string
 }
 
+// fastSolver: z3 5.1.0 with E-matching only (no model-based quantifier
+// instantiation): proves or gives up within milliseconds.
+var fastSolver = Solver{"z3-5.1.0-ematch", func(file string, t int) []string {
+	return []string{"z3-new", fmt.Sprintf("-T:%d", t), "smt.mbqi=false", "smt.auto_config=false", file}
+}}
+
 var solvers = []Solver{
 	{"z3-5.1.0", func(file string, t int) []string { return []string{"z3-new", fmt.Sprintf("-T:%d", t), file} }},
 	{"cvc5-1.0.3", func(file string, t int) []string {
@@ -40,7 +47,11 @@ var solvers = []Solver{
 	{"z3-4.8.12", func(file string, t int) []string { return []string{"z3", fmt.Sprintf("-T:%d", t), file} }},
 }
 
+var fileSeq int64
+
 type SolveOpts struct {
+	Houdini    bool            // candidate check: fast solver, then cvc5 briefly
+	Short      map[string]bool // obligations expected to fail (known findings): short second stage
 	TimeoutS   int
 	AllSolvers bool // thorough: ask every back end, flag disagreement
 	Dir        string
@@ -115,9 +126,12 @@ func runSolver(s Solver, file string, timeoutS int) (status string, out string, 
 	cmd.Stdout = &buf
 	cmd.Stderr = &buf
 	t0 := time.Now()
-	_ = cmd.Run()
+	runErr := cmd.Run()
 	secs = time.Since(t0).Seconds()
 	out = buf.String()
+	if out == "" && runErr != nil {
+		out = "exec: " + runErr.Error()
+	}
 	first := strings.TrimSpace(out)
 	if i := strings.IndexByte(first, '\n'); i >= 0 {
 		first = strings.TrimSpace(first[:i])
@@ -148,7 +162,7 @@ func (vc *VC) solveOne(o *Obl, enabled map[string]bool, opts SolveOpts, stats *S
 	text := vc.script(o, enabled, wantModel)
 	sum := sha256.Sum256([]byte(text))
 	o.Hash = fmt.Sprintf("%x", sum[:8])
-	file := filepath.Join(opts.Dir, o.Hash+".smt2")
+	file := filepath.Join(opts.Dir, fmt.Sprintf("%s-%d.smt2", o.Hash, atomic.AddInt64(&fileSeq, 1)))
 	if err := os.WriteFile(file, []byte(text), 0o644); err != nil {
 		o.Status = "error"
 		o.Output = err.Error()
@@ -165,13 +179,26 @@ func (vc *VC) solveOne(o *Obl, enabled map[string]bool, opts SolveOpts, stats *S
 		answers = append(answers, name+"="+st)
 	}
 	// stage 1: the fast solver with a short limit decides almost everything
-	quickT := 2
+	quickT := 3
 	if opts.TimeoutS < quickT {
 		quickT = opts.TimeoutS
 	}
-	st, out, secs := runSolver(solvers[0], file, quickT)
-	record(solvers[0].Name, st, out, secs)
-	o.Status, o.Backend, o.Ms = st, solvers[0].Name, int64(secs*1000)
+	st, out, secs := runSolver(fastSolver, file, quickT)
+	record(fastSolver.Name, st, out, secs)
+	o.Status, o.Backend, o.Ms = st, fastSolver.Name, int64(secs*1000)
+	if opts.Houdini {
+		if st != "unsat" {
+			st2, out2, secs2 := runSolver(solvers[1], file, 2)
+			record(solvers[1].Name, st2, out2, secs2)
+			if st2 == "unsat" {
+				o.Status, o.Backend, o.Ms = st2, solvers[1].Name, int64(secs2*1000)
+			}
+		}
+		return
+	}
+	if opts.Short[o.Name] && opts.TimeoutS > 3 {
+		opts.TimeoutS = 3
+	}
 	if st == "sat" {
 		o.Output = truncate(out, 4000)
 	}
@@ -185,7 +212,7 @@ func (vc *VC) solveOne(o *Obl, enabled map[string]bool, opts SolveOpts, stats *S
 	if done && !opts.AllSolvers {
 		if st == "unsat" || st == "sat" {
 			stats.mu.Lock()
-			stats.Wins[solvers[0].Name]++
+			stats.Wins[fastSolver.Name]++
 			stats.mu.Unlock()
 		}
 		o.Extra = mergeExtra(o.Extra, "answers", strings.Join(answers, " "))
@@ -263,7 +290,7 @@ func solveAll(vcs []*VC, opts SolveOpts, stats *SolverStats) (cands, kept int) {
 		vc *VC
 		o  *Obl
 	}
-	run := func(jobs []job, enabled map[string]bool) {
+	runWith := func(jobs []job, enabled map[string]bool, opts SolveOpts) {
 		var wg sync.WaitGroup
 		ch := make(chan job)
 		for i := 0; i < opts.Workers; i++ {
@@ -282,6 +309,7 @@ func solveAll(vcs []*VC, opts SolveOpts, stats *SolverStats) (cands, kept int) {
 		close(ch)
 		wg.Wait()
 	}
+	run := func(jobs []job, enabled map[string]bool) { runWith(jobs, enabled, opts) }
 	enabled := map[string]bool{}
 	for _, vc := range vcs {
 		for _, o := range vc.obls {
@@ -298,9 +326,7 @@ func solveAll(vcs []*VC, opts SolveOpts, stats *SolverStats) (cands, kept int) {
 	}
 	cands = len(enabled)
 	hopts := opts
-	if hopts.TimeoutS > 5 {
-		hopts.TimeoutS = 5
-	}
+	hopts.Houdini = true
 	hopts.AllSolvers = false
 	for round := 0; round < 20; round++ {
 		var jobs []job
@@ -314,7 +340,7 @@ func solveAll(vcs []*VC, opts SolveOpts, stats *SolverStats) (cands, kept int) {
 		if len(jobs) == 0 {
 			break
 		}
-		run(jobs, enabled)
+		runWith(jobs, enabled, hopts)
 		removed := 0
 		for _, j := range jobs {
 			if j.o.Status != "unsat" {
